@@ -13,8 +13,8 @@ Local Open Scope Q_scope.
 Theorem c10_token_bucket_bound : forall p : tbp Qops, 0 < tb_rate p -> 0 <= tb_cap p ->
   forall init pre mid B, 0 <= init -> init <= B -> tb_cap p <= B -> sorted (pre ++ mid) ->
   let s0 := Build_tbs Qops init None in
-  let s1 := fst (run_count admit (tb_step Qops p) s0 pre) in
-  inject_Z (snd (run_count admit (tb_step Qops p) s1 mid)) <=
+  let s1 := fst (run_count granted (tb_step Qops p) s0 pre) in
+  inject_Z (snd (run_count granted (tb_step Qops p) s1 mid)) <=
     B + tb_rate p * qsecs (match mid with [] => 0 | o :: r => last_time (time_of o) r - time_of o end).
 Proof. exact tb_never_over_admits. Qed.
 Print Assumptions c10_token_bucket_bound.
@@ -30,7 +30,7 @@ Print Assumptions c10_token_bucket_tua_zero.
 Theorem c10_token_bucket_tua_blocks : forall p : tbp Qops, 0 < tb_rate p -> 0 <= tb_cap p ->
   forall s now s1 w ops, tb_ready s now -> tb_tua Qops p s now = (s1, w) -> (0 < w)%Z ->
   nondecr now ops -> (last_time now ops < now + w)%Z ->
-  snd (run_count admit (tb_step Qops p) s1 ops) = 0%Z.
+  snd (run_count granted (tb_step Qops p) s1 ops) = 0%Z.
 Proof. exact tb_tua_positive_blocks. Qed.
 Print Assumptions c10_token_bucket_tua_blocks.
 
